@@ -61,6 +61,11 @@ def gen_redeem_script(rng):
 
 def gen_scriptsig(rng, nops=None, big=False, last_kind=None):
     """returns (raw script, list of op raws, list of kinds)"""
+    if nops is None and rng.random() < 0.1:
+        # many operations: beyond the signatures of the largest standard multisig (15 + 2),
+        # around the counts somebody may take for limits (16, 20, 201, 1000)
+        nops = rng.choice([9, 15, 16, 17, 18, 19, 20, 21, 32, 33, 64, 100, 200, 201, 202, 255,
+                           256, 257, 1000, 1001])
     nops = nops or rng.randint(1, 8)
     ops = []
     kinds = []
